@@ -2949,7 +2949,11 @@ def cli_wiring(seed, n_cases, want_enc=None):
             if mode == 1 and nss:
                 c.eager = (rng.choice(nss).split(".")[0],)
             elif mode == 2:
-                c.re = "^(zq3xf|zq4xf|name)$"
+                # (values with a comma / a pipe / braces: the flag value must reach the compiler as ONE expression)
+                c.re = rng.choice(["^(zq3xf|zq4xf|name)$", "^(zq[0-9]{1,2}xf|name)$", "zq[34]xf,?", "^zq3xf$|^zq4xf$"])
+            if mode == 1 and len(nss) > 1 and rng.chance(1, 2):
+                db = c.eager[0]
+                c.eager = (db + ".zzz", db, db + ".aaa")          # the flag given several times, nested prefixes
             enc = (i % 2 == 1) if want_enc is None else want_enc
             combos.append((c, enc))
         inp = os.path.join(work, "in.log")
